@@ -225,7 +225,7 @@ func (r *Run) Add(states, transitions, traces, evals, nontrivial int64) {
 // configurations and bindings: normally milliseconds) may run before the
 // watchdog declares a hang. It is deliberately huge: it only ever fires when
 // the engine loops forever or blocks.
-var Stall = 180 * time.Second
+var Stall = 300 * time.Second
 
 // Tick records progress of whichever worker calls it (all workers' clocks are
 // advanced: it is only used inside long single units of work).
